@@ -10,11 +10,11 @@ NTH = 4  # extra input columns
 
 
 def configs(names):
+    """every assignment of parameter names to column indices: each name is absent from the table or routed to one of the NTH
+    columns; several names may share a column (the table is a dict name -> index, nothing requires it to be injective)"""
     out = []
-    for k in range(len(names) + 1):
-        for sub in itertools.combinations(names, k):
-            for idx in itertools.permutations(range(NTH), k):
-                out.append(dict(zip(sub, idx)))
+    for choice in itertools.product([None] + list(range(NTH)), repeat=len(names)):
+        out.append({n: c for n, c in zip(names, choice) if c is not None})
     return out
 
 
@@ -29,6 +29,8 @@ def all_cases():
         if 'u_0_prime' not in lk:
             cases.append(('ivp_d', lk))
     for lk in configs(['t_0', 'u_0', 't_1', 'u_1']):
+        if 't_0' in lk and lk.get('t_1') == lk['t_0']:
+            continue        # t_0 and t_1 read from the same column: t_0 = t_1 in every row, outside the condition's domain
         cases.append(('bvp', lk))
     return cases
 
@@ -47,7 +49,15 @@ def scenario(kind, lk):
         else:
             c = dict(t_0=w.param('c_t0'), u_0=w.param('c_u0'), t_1=w.param('c_t1'), u_1=w.param('c_u1'))
             cond = BundleDirichletBVP(bundle_param_lookup=dict(lk), **c)
-        return cond.enforce(w.net('N', 1 + NTH), t, *th)
+        # other conditions of the same process (a system of ODEs has one per unknown): constructed and used between the
+        # construction and the use of `cond`; they must not influence it
+        others = [BundleIVP(t_0=w.param('o_t0'), u_0=w.param('o_u0'), u_0_prime=w.param('o_up'), bundle_param_lookup={'u_0': NTH - 1}),
+                  BundleDirichletBVP(t_0=w.param('o_t0'), u_0=w.param('o_u0'), t_1=w.param('o_t1'), u_1=w.param('o_u1'),
+                                     bundle_param_lookup={'t_1': 0, 'u_1': 1})]
+        net = w.net('N', 1 + NTH)
+        for o in others:
+            o.enforce(net, t, *th)
+        return cond.enforce(net, t, *th)
     return f
 
 
@@ -61,9 +71,24 @@ def generate(seeds=(1, 2, 3), tier='quick'):
         fixed = [c for c in cases if not c[1] or len(c[1]) >= 3][:0]
         picked = rng.sample(cases, 16)
         must = [('ivp_d', {}), ('ivp_n', {'t_0': 1, 'u_0': 0, 'u_0_prime': 3}), ('bvp', {'t_0': 2, 'u_0': 0, 't_1': 3, 'u_1': 1}),
-                ('bvp', {'t_1': 0}), ('ivp_d', {'t_0': 3})]
+                ('bvp', {'t_1': 0}), ('ivp_d', {'t_0': 3}),
+                # names sharing a column
+                ('bvp', {'u_0': 0, 'u_1': 0}), ('ivp_n', {'t_0': 1, 'u_0': 1, 'u_0_prime': 1}), ('bvp', {'t_0': 2, 'u_0': 2, 't_1': 3, 'u_1': 3}),
+                ('ivp_d', {'t_0': 0, 'u_0': 0}), ('ivp_n', {'u_0': 2, 'u_0_prime': 2})]
         cases = must + [c for c in picked if c not in must]
     stats['_space'] = dict(replays=0, total_configurations=len(all_cases()), traced=len(cases))
+    # thorough: the enumeration is split over several modules (built in parallel by lake); quick: one module
+    CH = 48
+    chunks = [cases[i:i + CH] for i in range(0, len(cases), CH)] if tier != 'quick' else [cases]
+    for ci, chunk in enumerate(chunks):
+        gc = g if ci == 0 else GenFile(f'{PID}p{ci}')
+        if ci:
+            g.parts.append(gc)
+        _emit_cases(gc, chunk, stats, seeds)
+    return g, stats
+
+
+def _emit_cases(g, cases, stats, seeds):
     for kind, lk in cases:
         name = cfg_name(kind, lk)
         sw, outs, st = tie_check(scenario(kind, lk), seeds[:2], n_rows=(3,))
@@ -94,12 +119,11 @@ def generate(seeds=(1, 2, 3), tier='quick'):
                      what=f'BundleDirichletBVP lookup {lk}: u(t0_row) = u0_row ({t0r} -> {u0r})')
             g.thm_eq(f'{name}_right', rv[1:], [t1r] + rv[1:], name, tree, V(u1r), hyps=hy,
                      what=f'BundleDirichletBVP lookup {lk}: u(t1_row) = u1_row ({t1r} -> {u1r})')
-    return g, stats
 
 
 ASSUMPTIONS = [
-    'theorems are over the reals, one per lookup configuration (quick: seeded sample + fixed corner cases; thorough: all 355 '
-    'configuration/mode pairs over 4 extra columns)',
+    'theorems are over the reals, one per lookup configuration (quick: seeded sample + fixed corner cases; thorough: all 675 '
+    'configuration/mode pairs over 4 extra columns, names may share a column)',
     'illegal parameter names are rejected by the constructor (checked in the search only)',
 ]
 
@@ -127,6 +151,10 @@ def search(seed, tier):
             cond = BundleDirichletBVP(bundle_param_lookup=dict(lk), **c)
         else:
             cond = BundleIVP(bundle_param_lookup=dict(lk), **c)
+        # a second condition constructed afterwards (systems of ODEs) must not influence the first
+        other = BundleIVP(t_0=rng.uniform(-3, 3), u_0=rng.uniform(-3, 3), u_0_prime=rng.uniform(-3, 3), bundle_param_lookup={'u_0': NTH - 1})
+        other2 = BundleDirichletBVP(t_0=rng.uniform(-3, 3), u_0=rng.uniform(-3, 3), t_1=rng.uniform(4, 8), u_1=rng.uniform(-3, 3),
+                                    bundle_param_lookup={'t_1': 0})
 
         def rowv(p):
             return th[lk[p]].detach().clone() if p in lk else torch.full((n, 1), float(c[p]))
